@@ -618,17 +618,24 @@ def m_re_sub(vm, args, kw):
     pattern, repl, s = args[0], args[1], args[2]
     if not isinstance(s, SStr):
         return re.sub(*args, **kw)
-    if not isinstance(repl, str) or '\\' in repl or len(args) > 3 or kw:
-        raise Unsupported('re.sub with that replacement / count / flags on a symbolic string')
-    items, ng, names = compile_rx(pattern, 0, vm)
+    count = args[3] if len(args) > 3 else kw.get('count', 0)
+    flags = args[4] if len(args) > 4 else kw.get('flags', 0)
+    if not isinstance(repl, str) or '\\' in repl or is_sym(count) or set(kw) - {'count', 'flags'}:
+        raise Unsupported('re.sub with that replacement / symbolic count on a symbolic string')
+    count = int(count)
+    items, ng, names = compile_rx(pattern, flags, vm)
     atoms = s.a
     out = []
     pos = 0
     n = len(atoms)
     rep = [ord(c) for c in repl]
     last_empty_at = -1
+    done_subs = 0
     while pos <= n:
         res = []
+        if count and done_subs >= count:
+            out.extend(atoms[pos:])
+            break
 
         def done(p, g, start=pos):
             res.append(p)
@@ -637,10 +644,12 @@ def m_re_sub(vm, args, kw):
             end = res[0]
             if end > pos:
                 out.extend(rep)
+                done_subs += 1
                 pos = end
                 continue
             if last_empty_at != pos:
                 out.extend(rep)           # empty match
+                done_subs += 1
                 last_empty_at = pos
         if pos < n:
             out.append(atoms[pos])
